@@ -306,8 +306,8 @@ def _ob(name, fn, tier, timeout, kind='ch', **params):
 OBLIGATIONS = [
     _ob('escape_cont_le3', 'h_escape_cont', 'quick', 600, maxn=3),
     _ob('escape_attr_le3', 'h_escape_attr', 'quick', 600, maxn=3),
-    _ob('escape_cont_le5', 'h_escape_cont', 'thorough', 1800, maxn=5),
-    _ob('escape_attr_le5', 'h_escape_attr', 'thorough', 1800, maxn=5),
+    _ob('escape_cont_le4', 'h_escape_cont', 'thorough', 5400, maxn=4),
+    _ob('escape_attr_le4', 'h_escape_attr', 'thorough', 5400, maxn=4),
     _ob('no_loop_id_prefix', 'conc_no_loop_id_prefix', 'quick', 600, kind='concrete'),
 ] + [_ob('seg_transition_837_prev%02d' % lo, 'h_seg_transition', 'quick', 1200, map='837.4010.X098.A1.xml', ilo=lo, ihi=lo + 4)
      for lo in range(0, 28, 4)] + [
@@ -322,7 +322,7 @@ OBLIGATIONS = [
 
 LEVEL = 'other'
 EXPLANATION = __doc__
-BOUNDS = ('escaping: every unicode string of <= 3 (5 thorough) characters; transitions: every ordered pair of up to 26 representative segment nodes of 837.4010.X098.A1 '
+BOUNDS = ('escaping: every unicode string of <= 3 (4 thorough) characters; transitions: every ordered pair of up to 26 representative segment nodes of 837.4010.X098.A1 '
           '(both parents of the claim sub-tree, envelope, header) and of 997.4010 (835 in thorough) x 7 hostile values; round trip: 7 real valid documents x 4 injected values.')
 OUTSIDE = ('pairs of nodes outside the representative set; maps other than 837P 4010 / 997 / 835; values containing the output delimiters ~ * : (not representable); '
            'control characters (not XML 1.0); the expat parser is trusted.')
